@@ -4,6 +4,8 @@ import (
 	"bytes"
 	"encoding/hex"
 	"fmt"
+	"github.com/libsv/go-bk/bip32"
+	"github.com/libsv/go-bk/chaincfg"
 	"math/big"
 	"strings"
 	"sync"
@@ -274,6 +276,30 @@ func c15KeyCheck(c c15Key) (fs []rep.Finding) {
 		out("AddP2PKHOutputFromPubKeyBytes", func(tx *bt.Tx) error { return tx.AddP2PKHOutputFromPubKeyBytes(pub, 5) })
 		out("AddP2PKHOutputFromPubKeyStr", func(tx *bt.Tx) error { return tx.AddP2PKHOutputFromPubKeyStr(hex.EncodeToString(pub), 5) })
 	}
+	if pub != nil && c.Mainnet {
+		// from an extended key: the library picks a derivation path (its own randomness) and
+		// reports it; whatever the path, the script is the canonical P2PKH of the key at that path
+		if master, err := bip32.NewMaster(c.PrivKey, &chaincfg.MainNet); err == nil {
+			for i := 0; i < 3; i++ {
+				sc, path, err := bscript.NewP2PKHFromBip32ExtKey(master)
+				tx := bt.NewTx()
+				path2, err2 := tx.AddP2PKHOutputFromBip32ExtKey(master, 9)
+				if err != nil || err2 != nil {
+					fs = append(fs, rep.F("script-error|Bip32ExtKey", fmt.Sprint(err, err2)))
+					break
+				}
+				for k, ps := range []struct {
+					path string
+					sc   *bscript.Script
+				}{{path, sc}, {path2, tx.Outputs[0].LockingScript}} {
+					kb, derr := master.DerivePublicKeyFromPath(ps.path)
+					if derr != nil || !bytes.Equal(*ps.sc, refP2PKH(refHash160(kb))) || !ps.sc.IsP2PKH() {
+						fs = append(fs, rep.F(fmt.Sprintf("script-mismatch|Bip32ExtKey|api=%d", k), "script is not the canonical P2PKH of the key at the reported derivation path "+ps.path))
+					}
+				}
+			}
+		}
+	}
 	return
 }
 
@@ -337,7 +363,7 @@ func testPrivKeys(n int) [][]byte {
 
 func init() {
 	p := register(&Prop{ID: "C15", Level: "exploration",
-		Rule: "exhaustive: for 12 (quick) / 28 (thorough) 20-byte hashes (all-zero, leading zeros, all-ff, structured) and 6/12 keys, both networks: derivation through every address/P2PKH constructor compared with a reference Base58Check encoder and the canonical 25-byte script; and for every derived address EVERY single-character substitution (58 symbols x every position, plus 5 non-ASCII replacements per position: code points U+01xx/U+20xx/U+100xx whose low byte is the replaced character, the character with the high bit set, 0xff), adjacent transposition, insertion (58 symbols + 6 non-Base58 characters at every gap incl. a leading '1') and deletion, plus wrong version bytes (0x05,0xc4,0x01), 24/26-byte payloads with correct checksums and over-long strings whose value is the payload plus k*2^200 (k in 9 values incl. multiples of 58); keys include two whose X coordinate begins with a zero byte, each through NewAddressFromString, NewP2PKHFromAddress, PayToAddress, ChangeToAddress and ValidateAddress: accepted iff the reference decoder accepts. distinct_nontrivial = distinct strings judged",
+		Rule: "exhaustive: for 12 (quick) / 28 (thorough) 20-byte hashes (all-zero, leading zeros, all-ff, structured) and 6/12 keys, both networks: derivation through every address/P2PKH constructor (incl. the two extended-key constructors, whose derivation path is the library's own random choice and is followed by the oracle) compared with a reference Base58Check encoder and the canonical 25-byte script; and for every derived address EVERY single-character substitution (58 symbols x every position, plus 5 non-ASCII replacements per position: code points U+01xx/U+20xx/U+100xx whose low byte is the replaced character, the character with the high bit set, 0xff), adjacent transposition, insertion (58 symbols + 6 non-Base58 characters at every gap incl. a leading '1') and deletion, plus wrong version bytes (0x05,0xc4,0x01), 24/26-byte payloads with correct checksums and over-long strings whose value is the payload plus k*2^200 (k in 9 values incl. multiples of 58); keys include two whose X coordinate begins with a zero byte, each through NewAddressFromString, NewP2PKHFromAddress, PayToAddress, ChangeToAddress and ValidateAddress: accepted iff the reference decoder accepts. distinct_nontrivial = distinct strings judged",
 	})
 	sStr := NewSpace(p, "strings", c15StrCheck)
 	sKey := NewSpace(p, "derive", c15KeyCheck)
